@@ -427,6 +427,12 @@ def p1d(prog):
                 bad = (r.get("l"), ops[e["id"]])
         if not any(i[0] == key for i in inst):
             inst.append((key, {"operands": len(ops)}))
+        if bad:
+            # an operand that is renumbered before it is handed back is a fresh result for all that `pos` can tell
+            renum = [c for c in calls(f["body"]) if c.get("fn") == "set_pos" and c.get("obj") is not None and
+                     any(y.get("k") == "ref" and y.get("id") in ops and ops[y["id"]] == bad[1] for y in walk_nolambda(c["obj"]))]
+            if renum:
+                bad = None
         if bad and cls not in REPUSH_OK:
             findings.append({"key": key, "where": str(bad[0] or f["l"]),
                              "msg": "%s returns its operand `%s` as the result: the value keeps the position number of whatever produced it, so this word does not number its result afresh "
